@@ -244,6 +244,7 @@ static int json_patch_apply_move_copy(struct json_object **res,
 	size_t from_s_len;
 	void *array_set_priv;
 	int add = 1; // a copy inserts into an array, like "add"
+	int same_location = 0;
 	int rc;
 
 	if (!json_object_object_get_ex(patch_elem, "from", &jfrom)) {
@@ -267,7 +268,8 @@ static int json_patch_apply_move_copy(struct json_object **res,
 	if (move && strncmp(from_s, path, from_s_len) == 0) {
 		/**
 		 * "from" is a prefix of "path" as a string.
-		 * If the lengths match, it's a noop.  If "path" goes on with
+		 * If the lengths match, it's a noop (once we know that the
+		 * location exists).  If "path" goes on with
 		 * another reference token (or "from" is the whole document),
 		 * then we're trying to move a parent under a child
 		 * which is not allowed as per RFC 6902 section 4.4
@@ -279,8 +281,8 @@ static int json_patch_apply_move_copy(struct json_object **res,
 		 * it is before the operation).
 		 */
 		if (path[from_s_len] == '\0')
-			return 0;
-		if (path[from_s_len] == '/' || from_s_len == 0) {
+			same_location = 1;
+		else if (path[from_s_len] == '/' || from_s_len == 0) {
 			_set_err(EINVAL, "Invalid attempt to move parent under a child");
 			return -1;
 		}
@@ -292,6 +294,10 @@ static int json_patch_apply_move_copy(struct json_object **res,
 		_set_err_from_ptrget(errno, "from");
 		return rc;
 	}
+
+	// The "from" location MUST exist, also when it is moved onto itself
+	if (same_location)
+		return 0;
 
 	// Note: for a move it's impossible for json_pointer to find the root obj,
 	// due to the path check above, so from.parent is guaranteed non-NULL
